@@ -4,6 +4,7 @@
 package c15
 
 import (
+	"errors"
 	"context"
 	"fmt"
 	"sort"
@@ -27,7 +28,7 @@ import (
 )
 
 type op struct {
-	Kind string // startw | stopw | killw | tick | ack | partial | faildeploy | wait | deploywin (another worker starts; the deployment that follows in this step, if any, is slow and member W leaves while it runs: N even = deregisters, odd = stops heartbeating)
+	Kind string // startw | stopw | killw | tick | ack | partial | faildeploy | wait | sprace (a savepoint request, or with N odd the checkpoint timer's callback, that has seen the job running is overtaken by the loss of member W before it creates its checkpoint) | deploywin (another worker starts; the deployment that follows in this step, if any, is slow and member W leaves while it runs: N even = deregisters, odd = stops heartbeating)
 	W    int    // worker index 0..5
 	N    int
 }
@@ -42,7 +43,7 @@ func gen(rt *rapid.T) prog {
 	n := rapid.IntRange(3, 40).Draw(rt, "n")
 	for i := 0; i < n; i++ {
 		p.Ops = append(p.Ops, op{
-			Kind: rapid.SampledFrom([]string{"startw", "startw", "startw", "stopw", "killw", "tick", "tick", "ack", "ack", "partial", "faildeploy", "wait", "deploywin"}).Draw(rt, "kind"),
+			Kind: rapid.SampledFrom([]string{"startw", "startw", "startw", "stopw", "killw", "tick", "tick", "ack", "ack", "partial", "faildeploy", "wait", "deploywin", "sprace"}).Draw(rt, "kind"),
 			W:    rapid.IntRange(0, 5).Draw(rt, "w"),
 			N:    rapid.IntRange(0, 3).Draw(rt, "n"),
 		})
@@ -72,6 +73,23 @@ type world struct {
 	cond       *sync.Cond
 	holdDeploy bool
 	blocked    int
+	// a savepoint request that is overtaken: the next ID() call (the request is
+	// collecting the assembly's member ids) blocks until the harness lets it go
+	holdID    bool
+	blockedID bool
+}
+
+func (w *world) idGate() {
+	w.mu.Lock()
+	if w.holdID {
+		w.holdID = false // one call only: the job's own task queue asks for ids as well
+		w.blockedID = true
+		w.cond.Broadcast()
+		for w.blockedID {
+			w.cond.Wait()
+		}
+	}
+	w.mu.Unlock()
 }
 
 // gate blocks a Deploy call while the window is held.
@@ -104,7 +122,7 @@ type fakeOp struct {
 	id string
 }
 
-func (f *fakeOp) ID() string   { return f.id }
+func (f *fakeOp) ID() string   { f.w.idGate(); return f.id }
 func (f *fakeOp) Host() string { return f.id }
 func (f *fakeOp) Deploy(ctx context.Context, r *workerpb.DeployOperatorRequest) error {
 	c := call{Kind: "deploy-op", Node: f.id, SRs: r.SourceRunnerIds}
@@ -214,6 +232,7 @@ func exec(p prog, c *hx.Case) error {
 	w.cond = sync.NewCond(&w.mu)
 	defer func() { // never leave a Deploy call blocked
 		w.mu.Lock()
+		w.holdID, w.blockedID = false, false
 		w.holdDeploy = false
 		w.cond.Broadcast()
 		w.mu.Unlock()
@@ -307,6 +326,16 @@ func exec(p prog, c *hx.Case) error {
 	}
 	windowLeft := map[string]bool{} // members that left while the round they belong to was being deployed
 	windows := 0
+	stragglersArmed, stragglers := false, 0
+	spRaces := 0
+	raceCkpts := map[uint64]bool{} // checkpoints created by savepoint requests that were overtaken by a member's loss
+	var stragglerCheck func(step int) error
+	var stragglerID uint64
+	var stragglerOps, stragglerSRs []string
+	var pendingCkpt uint64
+	var acked map[string]bool
+	var curOps, curSRs []string // members of the last complete deploy round
+	var snapshotCount func() (n int, newest uint64)
 	heartbeat := func() {
 		for _, x := range ws {
 			if x.up {
@@ -334,6 +363,36 @@ func exec(p prog, c *hx.Case) error {
 		}
 		hit := w.blocked > 0
 		w.mu.Unlock()
+		if hit && pendingCkpt != 0 && stragglersArmed {
+			// The job has given up the previous assembly and is deploying its
+			// successor. Acknowledgements of the checkpoint that was in progress on
+			// the previous assembly still arrive from its members (requests that were
+			// on their way): that checkpoint can never be part of the job's history
+			// any more, whoever acknowledges it.
+			before, _ := snapshotCount()
+			for _, id := range append(append([]string{}, curOps...), curSRs...) {
+				if acked[id] {
+					continue
+				}
+				acked[id] = true
+				if strings.HasPrefix(id, "op") {
+					job.HandleOperatorCheckpointComplete(context.Background(), &snapshotpb.OperatorCheckpoint{CheckpointId: pendingCkpt, OperatorId: id,
+						DkvFileUri: "/work/" + id + "/checkpoints", KeyGroupRange: &snapshotpb.KeyGroupRange{Start: 0, End: 8}})
+				} else {
+					job.HandleSourceRunnerCheckpointComplete(context.Background(), &jobpb.SourceRunnerCheckpointCompleteRequest{CheckpointId: pendingCkpt, SourceRunnerId: id, SplitStates: [][]byte{[]byte(id)}})
+				}
+			}
+			time.Sleep(400 * time.Microsecond)
+			stragglers++
+			stragglerCheck = func(step int) error {
+				if n, _ := snapshotCount(); n > before {
+					return hx.Errf("step %d: checkpoint %d, which was in progress on the assembly %v/%v when the job gave that assembly up, was published after its last acknowledgements arrived while the next assembly was being deployed", step, stragglerID, stragglerOps, stragglerSRs)
+				}
+				return nil
+			}
+			stragglerID, stragglerOps, stragglerSRs = pendingCkpt, curOps, curSRs
+		}
+		stragglersArmed = false
 		if hit && victim != nil && (victim.up || victim.known) {
 			x := victim
 			windowLeft[x.opID], windowLeft[x.srID] = true, true
@@ -374,14 +433,11 @@ func exec(p prog, c *hx.Case) error {
 	}
 	live := func(x *worker) bool { return x.up && x.known }
 	// what the harness believes about the job
-	var curOps, curSRs []string // members of the last complete deploy round
 	curHealthy := false
-	var pendingCkpt uint64
-	var acked map[string]bool
 	seen := 0
 	lastPublished := firstID // (the savepoint the process was started from, if any)
 	kills, killsDuringCkpt, standby, recoveries, ckptsAfterRecovery, deployFailures := 0, 0, 0, 0, 0, 0
-	snapshotCount := func() (n int, newest uint64) {
+	snapshotCount = func() (n int, newest uint64) {
 		for _, j := range loc.Journal() {
 			if j.Kind == "write" && strings.HasSuffix(j.Path, ".snapshot") {
 				n++
@@ -419,6 +475,9 @@ func exec(p prog, c *hx.Case) error {
 				}
 				rounds[cl.Round] = append(rounds[cl.Round], cl)
 			case "startckpt":
+				if raceCkpts[cl.ID] {
+					break // (sent to the assembly that ran when the request was accepted)
+				}
 				if !member(curSRs, cl.Node) {
 					return hx.Errf("step %d: StartCheckpoint(%d) was sent to %s, which is not a source runner of the current assembly %v", step, cl.ID, cl.Node, curSRs)
 				}
@@ -531,9 +590,101 @@ func exec(p prog, c *hx.Case) error {
 				tw.up = true
 			}
 			armed, victim, victimKill = true, x, o.N%2 == 1
+			stragglersArmed = o.N >= 2
 			w.mu.Lock()
 			w.holdDeploy, w.blocked = true, 0
 			w.mu.Unlock()
+		case "sprace":
+			if !curHealthy || pendingCkpt != 0 {
+				break
+			}
+			// the member that leaves: x if it belongs to the assembly, else the first member
+			var gone *worker
+			for _, y := range ws {
+				if live(y) && member(curOps, y.opID) && (gone == nil || y == x) {
+					gone = y
+				}
+			}
+			if gone == nil {
+				break
+			}
+			w.mu.Lock()
+			w.holdID, w.blockedID = true, false
+			w.mu.Unlock()
+			type spRes struct {
+				id  uint64
+				err error
+			}
+			res := make(chan spRes, 1)
+			viaTimer := o.N%2 == 1
+			before := len(w.snapshot())
+			go func() {
+				if viaTimer {
+					// (the same for a periodic checkpoint whose timer has fired)
+					func() {
+						defer func() { recover() }()
+						clock.TickEvery("checkpointing")
+					}()
+					res <- spRes{0, errors.New("timer")}
+					return
+				}
+				id, err := job.HandleCreateSavepoint(context.Background())
+				res <- spRes{id, err}
+			}()
+			w.mu.Lock()
+			for i := 0; i < 50 && !w.blockedID; i++ {
+				w.mu.Unlock()
+				time.Sleep(100 * time.Microsecond)
+				w.mu.Lock()
+			}
+			caught := w.blockedID
+			w.holdID = false
+			w.mu.Unlock()
+			if caught {
+				// the request has seen the job running and is collecting the member ids;
+				// now the member leaves (and with a standby registered the job forms the
+				// next assembly at once)
+				gone.up, gone.known = false, false
+				left := make(chan struct{})
+				go func() {
+					job.HandleDeregisterOperator(&jobpb.NodeIdentity{Id: gone.opID})
+					job.HandleDeregisterSourceRunner(&jobpb.NodeIdentity{Id: gone.srID})
+					job.HandleDeregisterOperator(&jobpb.NodeIdentity{Id: "nobody"}) // (returns once the two before it have been processed)
+					job.HandleDeregisterOperator(&jobpb.NodeIdentity{Id: "nobody"})
+					close(left)
+				}()
+				// If the request collects the ids on a goroutine of its own, the job
+				// processes the departure now; if it does so as one of the job's serial
+				// tasks, the departure waits behind it and nothing overtakes anything.
+				select {
+				case <-left:
+					time.Sleep(300 * time.Microsecond) // the next assembly's start, if any, gets going
+				case <-time.After(3 * time.Millisecond):
+				}
+				w.mu.Lock()
+				w.blockedID = false
+				w.cond.Broadcast()
+				w.mu.Unlock()
+				<-left
+				spRaces++
+			}
+			select {
+			case r := <-res:
+				if r.err == nil {
+					// its StartCheckpoint calls go to the assembly the request saw
+					raceCkpts[r.id] = true
+				}
+				if viaTimer {
+					for _, cl := range w.snapshot()[before:] {
+						if cl.Kind == "startckpt" {
+							raceCkpts[cl.ID] = true
+						}
+					}
+				}
+			case <-time.After(10 * time.Second):
+				return hx.Errf("step %d: a savepoint request did not return within 10s", step)
+			}
+			settle()
 		case "faildeploy":
 			w.mu.Lock()
 			w.failNext[x.opID] = true
@@ -633,6 +784,13 @@ func exec(p prog, c *hx.Case) error {
 		heartbeat()
 		window()
 		settle()
+		if stragglerCheck != nil {
+			time.Sleep(300 * time.Microsecond)
+			if err := stragglerCheck(step); err != nil {
+				return err
+			}
+			stragglerCheck = nil
+		}
 		refreshHealth()
 		if err := examine(step); err != nil {
 			return err
@@ -684,6 +842,8 @@ func exec(p prog, c *hx.Case) error {
 	c.LabelIf(standby > 0, "standby-present")
 	c.LabelIf(p.FromSavepoint, "job-process-started-from-a-savepoint")
 	c.LabelIf(windows > 0, "member-left-while-its-round-was-being-deployed")
+	c.LabelIf(spRaces > 0, "savepoint-request-overtaken-by-the-loss-of-a-member")
+	c.LabelIf(stragglers > 0, "late-acknowledgements-of-the-replaced-assembly-while-the-next-is-deployed")
 	c.LabelIf(ckptsAfterRecovery > 0, "checkpoint-after-recovery")
 	if recoveries > 0 && ckptsAfterRecovery > 0 {
 		c.NonTrivial()
@@ -692,5 +852,5 @@ func exec(p prog, c *hx.Case) error {
 }
 
 func TestPropJob(t *testing.T) {
-	hx.Run(t, hx.Spec{Prop: "C15", Persist: true, Rule: "the real jobs.Job (WorkerCount 1..3, in a third of the cases started from a savepoint made by a real Store, FrozenClock, journaling StorageLocation, harness source splitter) with recording fake operators and source runners: 3..40 steps of starting workers, graceful stops (deregistration), kills (heartbeats stop, clock passes the deadline), checkpoint-timer ticks, full or partial acknowledgements, injected Deploy failures, deployment windows (the Deploy calls of the next round block; meanwhile a drawn member deregisters or stops heartbeating; then the round is let go); after every step all live workers re-register and the recorded calls are examined: every deployment addresses exactly WorkerCount operators and runners that are registered and live, hands over the latest completed checkpoint, StartCheckpoint only goes to the current healthy assembly, a tick on a healthy idle assembly starts a checkpoint, full acknowledgement publishes a snapshot, and with enough live workers a lost assembly is replaced (bounded progress); non-trivial = >=1 recovery followed by a completed checkpoint"}, gen, exec)
+	hx.Run(t, hx.Spec{Prop: "C15", Persist: true, Rule: "the real jobs.Job (WorkerCount 1..3, in a third of the cases started from a savepoint made by a real Store, FrozenClock, journaling StorageLocation, harness source splitter) with recording fake operators and source runners: 3..40 steps of starting workers, graceful stops (deregistration), kills (heartbeats stop, clock passes the deadline), checkpoint-timer ticks, full or partial acknowledgements, injected Deploy failures, deployment windows (the Deploy calls of the next round block; meanwhile a drawn member deregisters or stops heartbeating, and in half of them the outstanding acknowledgements of the checkpoint that was pending on the replaced assembly arrive, which must not publish it; then the round is let go); after every step all live workers re-register and the recorded calls are examined: every deployment addresses exactly WorkerCount operators and runners that are registered and live, hands over the latest completed checkpoint, StartCheckpoint only goes to the current healthy assembly, a tick on a healthy idle assembly starts a checkpoint, full acknowledgement publishes a snapshot, and with enough live workers a lost assembly is replaced (bounded progress); non-trivial = >=1 recovery followed by a completed checkpoint"}, gen, exec)
 }
